@@ -186,6 +186,17 @@ Definition serial_lt (a b : Z) : bool :=
   let b := b mod two32 in
   ((a <? b) && (b - a <? two31)) || ((a >? b) && (a - b >? two31)).
 
+(* Serial(a) > b, ==, <=, >= and Serial(a) + d (ValueError when |d| > 2^31 - 1) *)
+Definition serial_gt (a b : Z) : bool :=
+  let a := a mod two32 in
+  let b := b mod two32 in
+  ((a <? b) && (b - a >? two31)) || ((a >? b) && (a - b <? two31)).
+Definition serial_eq (a b : Z) : bool := (a mod two32) =? (b mod two32).
+Definition serial_le (a b : Z) : bool := serial_eq a b || serial_lt a b.
+Definition serial_ge (a b : Z) : bool := serial_eq a b || serial_gt a b.
+Definition serial_add (a d : Z) : res Z :=
+  if Z.abs d >? two31 - 1 then Internal eValueInit else Ok ((a mod two32 + d) mod two32).
+
 (* ---- dns/xfr.py Inbound ---- *)
 Record st := mkSt {
   pub : zone;            (* the zone as published by the transaction manager *)
@@ -684,7 +695,9 @@ Definition run (c : obs) : obs :=
       | _, _ => E eBadCase
       end
   (* 4: dns.serial.Serial(a) < b *)
-  | L [I 4; I a; I b] => ob (serial_lt a b)
+  | L [I 4; I a; I b] => L [ob (serial_lt a b); ob (serial_le a b); ob (serial_gt a b); ob (serial_ge a b); ob (serial_eq a b)]
+  (* 7: (Serial(a) + d).value *)
+  | L [I 7; I a; I d] => match serial_add a d with Ok v => I v | Lib e => E e | Internal e => E e end
   (* 5: the RRsets dns.message.from_wire(xfr=True, one_rr_per_rrset=f) makes of an answer section *)
   | L [I 5; I f; L rs] =>
       match rrs_of_obs rs with
